@@ -171,7 +171,7 @@ var queryNames = []string{"page", "limit", "q", "since", "flag", "ratio", "ids",
 var headerNames = []string{"X-Request-Id", "X-Trace", "X-Count", "X-When", "X-Flag", "Accept-Language", "X-Ratio"}
 
 // Generate returns the JSON text of spec number i for the given seed plus a name.
-func Generate(seed uint64, i int) (name string, text string) {
+func Generate(seed uint64, i int) (name string, text string, config string) {
 	g := &gen{r: rand.New(rand.NewPCG(seed*7919+uint64(i), 0x5eed)), schemas: M{}}
 	r := g.r
 	name = fmt.Sprintf("g_s%d_%02d", seed, i)
@@ -279,7 +279,10 @@ func Generate(seed uint64, i int) (name string, text string) {
 		doc["components"] = comps
 	}
 	b, _ := json.MarshalIndent(doc, "", " ")
-	return name, string(b)
+	if r.IntN(3) == 0 {
+		config = "cors:\n  enable: true\n"
+	}
+	return name, string(b), config
 }
 
 func (g *gen) operation(method string, vars []string) M {
